@@ -4,6 +4,7 @@
 -/
 import Sipsp.Proofs.UriCmpLaws
 import Sipsp.Proofs.SafeRest
+import Sipsp.Proofs.ParamSpec
 
 namespace Sipsp
 
@@ -111,5 +112,95 @@ theorem uriParamsLoop_uclInv (b : Buf) (flags : Nat) (offs : Nat) (l : URIParams
 theorem parseAllURIParams_uclInv (b : Buf) (offs : Nat) (l : URIParamsLst) (flags : Nat) (h : UclPlInv b l) :
     UclPlInv b (parseAllURIParams b offs l flags).2.2.2 :=
   uriParamsLoop_uclInv b _ offs l 0 h
+
+/-! ### (1b) from the invariant to the hypotheses of the laws: `TypesOk`, classification of the stored elements -/
+
+theorem ucl_mem_plist {l : URIParamsLst} {p : URIParam} :
+    p ∈ l.plist ↔ ∃ k, k < l.n ∧ k < l.params.size ∧ l.params[k]! = p := by
+  unfold URIParamsLst.plist URIParamsLst.pNo
+  rw [List.mem_take_iff_getElem]
+  constructor
+  · rintro ⟨j, hj, rfl⟩
+    have hj' : j < l.params.size := by
+      have := hj; simp only [Array.length_toList] at this; omega
+    refine ⟨j, ?_, hj', ?_⟩
+    · split at hj <;> omega
+    · rw [getElem!_pos l.params j hj', Array.getElem_toList]
+  · rintro ⟨k, hk, hs, rfl⟩
+    refine ⟨k, ?_, ?_⟩
+    · simp only [Array.length_toList]; split <;> omega
+    · rw [getElem!_pos l.params k hs, Array.getElem_toList]
+
+/-- a stored parameter's recorded type is the classification (`URIParamResolve`) of its name -/
+def UclCls (b : Buf) (p : URIParam) : Prop := ∃ nm, p.param.name.get? b = some nm ∧ p.t = uriParamResolve nm
+
+theorem UclPlInv.mem_cls {b : Buf} {l : URIParamsLst} (h : UclPlInv b l) : ∀ p ∈ l.plist, UclCls b p := by
+  intro p hp
+  obtain ⟨k, hk, hs, rfl⟩ := ucl_mem_plist.1 hp
+  exact h.cls k hk hs
+
+theorem ucl_resolve_range (nm : Buf) :
+    uriParamResolve nm ∈ [URIParamTransportF, URIParamLRF, URIParamMaddrF, URIParamUserF, URIParamMethodF,
+      URIParamTTLF, URIParamOtherF] := by
+  unfold uriParamResolve
+  repeat' split
+  all_goals simp
+
+/-- the types ParseAllURIParams records are single bits: testing a presence bit is comparing the type -/
+theorem ucl_resolve_bit (nm : Buf) (x : Nat) (hx : x ∈ [URIParamUserF, URIParamTTLF, URIParamMethodF, URIParamMaddrF]) :
+    (uriParamResolve nm &&& x) ≠ 0 ↔ uriParamResolve nm = x := by
+  have hr := ucl_resolve_range nm
+  generalize uriParamResolve nm = t at hr
+  simp only [List.mem_cons, List.not_mem_nil, or_false] at hr hx
+  rcases hr with rfl | rfl | rfl | rfl | rfl | rfl | rfl <;> rcases hx with rfl | rfl | rfl | rfl <;> decide
+
+/-- **the `types` mask is the set of types stored**, provided no parameter was dropped for lack of room -/
+theorem UclPlInv.typesOk {b : Buf} {l : URIParamsLst} (h : UclPlInv b l) (hn : l.n ≤ l.params.size) : TypesOk l := by
+  intro x hx
+  rw [h.types hn x]
+  constructor
+  · rintro ⟨k, hk, hb⟩
+    have hs : k < l.params.size := by omega
+    obtain ⟨nm, _, ht⟩ := h.cls k hk hs
+    rw [ht] at hb
+    exact ⟨l.params[k]!, ucl_mem_plist.2 ⟨k, hk, hs, rfl⟩, by rw [ht]; exact (ucl_resolve_bit nm x hx).1 hb⟩
+  · rintro ⟨p, hp, ht⟩
+    obtain ⟨k, hk, hs, rfl⟩ := ucl_mem_plist.1 hp
+    obtain ⟨nm, _, ht'⟩ := h.cls k hk hs
+    refine ⟨k, hk, ?_⟩
+    rw [ht'] at ht ⊢
+    exact (ucl_resolve_bit nm x hx).2 ht
+
+/-- one direction holds even when parameters were dropped: the type of every stored parameter is in the mask -/
+theorem ucl_srTpGet_paramIn {b : Buf} {p : URIParam} (h : SrTpGet b p.param) : ParamIn b p := by
+  obtain ⟨⟨x, hx⟩, ⟨y, hy⟩⟩ := h
+  exact ⟨by rw [hx]; rfl, by rw [hy]; rfl⟩
+
+theorem ucl_srTpGet_hdrIn {b : Buf} {p : PTokParam} (h : SrTpGet b p) : HdrIn b p := by
+  obtain ⟨⟨x, hx⟩, ⟨y, hy⟩⟩ := h
+  exact ⟨by rw [hx]; rfl, by rw [hy]; rfl⟩
+
+/-- **ParseAllURIParams establishes the list hypotheses of the comparison laws** (new list of any capacity `k`, any
+    flags, any verdict, any offset inside a buffer within the 65,535-byte limit): no panic; every stored parameter
+    lies inside the buffer (`ParamIn`) and its recorded type is the classification of its name (`UclCls`); the type
+    mask is the set of types stored (`TypesOk`) unless parameters were dropped for lack of room. -/
+theorem parseAllURIParams_ucl (b : Buf) (o k flags : Nat) (hfit : b.size ≤ 65535) (ho : o ≤ b.size) :
+    (parseAllURIParams b o { params := Array.replicate k {} } flags).2.2.2.pnc = false ∧
+    (∀ p ∈ (parseAllURIParams b o { params := Array.replicate k {} } flags).2.2.2.plist, ParamIn b p ∧ UclCls b p) ∧
+    ((parseAllURIParams b o { params := Array.replicate k {} } flags).2.2.2.more = false →
+      TypesOk (parseAllURIParams b o { params := Array.replicate k {} } flags).2.2.2) := by
+  have hS := parseAllURIParams_safe b o { params := Array.replicate k {} } flags hfit ho (srPlIn_new o k)
+  have hI := parseAllURIParams_uclInv b o { params := Array.replicate k {} } flags (uclPlInv_new b k)
+  refine ⟨hS.out.pnc, fun p hp => ⟨ucl_srTpGet_paramIn (hS.out.mem_get hfit _ p hp), hI.mem_cls p hp⟩, fun hm => ?_⟩
+  apply hI.typesOk
+  unfold URIParamsLst.more at hm
+  simpa using hm
+
+/-- **ParseAllURIHdrs establishes the list hypothesis of the comparison laws**: every stored header lies inside the
+    buffer (`HdrIn`) -/
+theorem parseAllURIHdrs_ucl (b : Buf) (o k flags : Nat) (hfit : b.size ≤ 65535) (ho : o ≤ b.size) :
+    ∀ h ∈ (parseAllURIHdrs b o { hdrs := Array.replicate k {} } flags).2.2.2.hlist, HdrIn b h := by
+  have hS := parseAllURIHdrs_safe b o { hdrs := Array.replicate k {} } flags ho (srHlIn_new o k)
+  exact fun p hp => ucl_srTpGet_hdrIn (hS.out.mem_get hfit _ p hp)
 
 end Sipsp
